@@ -31,15 +31,19 @@ def compGen : P String := do
       (List.range l.length).map fun i =>
         let m := l.getD i default
         { id := m.id, x := x.getD i [], f := m.f.getD 0 0.0, cv := m.cv, feas := m.feas }
-    if pop.length != off.length then return "err DE: pop and infills differ in length"
-    let newPop := replaceStep constr (mk pop px) (mk off ox)
+    let isInit := algo.startsWith "init-"
+    if !isInit && pop.length != off.length then return "err DE: pop and infills differ in length"
+    -- first generation: `survival.do(problem, infills, None)` is the fitness assignment alone
+    let newPop := if isInit then fitnessSort (mk off ox) else replaceStep constr (mk pop px) (mk off ox)
     let asM := newPop.map fun (i : Ind1 Float) => ({ id := i.id, f := [i.f], cv := i.cv, feas := i.feas } : IndM Float)
     -- FitnessSurvival: rank = position
     let rk (id : Nat) : Option Nat := (newPop.findIdx? fun (i : Ind1 Float) => i.id == id)
     let opt := setOptimum asM rk
     let ids := newPop.map fun (i : Ind1 Float) => i.id
     return s!"ok {listOut toString ((pop ++ off).map (·.id))} {listOut toString ids} {listOut (fun (i : IndM Float) => toString i.id) opt}"
-  let cand := if algo == "gde3" then gde3Candidates pop off else mergeCandidates pop off
+  -- first generation (`_initialize_advance`): the sampled population alone is handed to the survival
+  let cand := if algo.startsWith "init-" then off
+              else if algo == "gde3" then gde3Candidates pop off else mergeCandidates pop off
   if mode == "ORACLE" then
     -- NSDE-R: the reference-direction survival is an oracle; its contract is checked here
     let surv ← listOf nat
